@@ -663,6 +663,147 @@ def validate_parser(rep, lg, N, count, rnd):
         raise common.HarnessError("parser encoding disagrees with the real parser: %r" % bad[:3])
 
 
+def validate_generated_code(rep, lg, per_rule, rnd, nmut):
+    """The generated parser *code* (blackbirdParser.py methods) is a further artefact next to the serialized ATN.
+    It cannot be encoded, so it is exercised systematically: for every parser rule, every right-hand-side variant of the
+    grammar NFA up to a length bound is expanded to a token sentence (minimal expansions, embedded in a context from
+    `start`) and parsed by the real generated parser; single-token mutants of these sentences are compared with the
+    CFG encoding of the shipped ATN.  Concrete validation, reported as such."""
+    import heapq
+    NG = lg.parser_G()
+    nrules = len(lg.rule_names)
+    INF = 10 ** 6
+    out_edges = {}
+    for r, m in NG.items():
+        o = {}
+        for a, l, b in m.edges:
+            for v in l[1]:
+                o.setdefault(a, []).append((v, b))
+        out_edges[r] = o
+    minexp = {r: None for r in NG}
+
+    def cost(v):
+        if v < nfa.RULE_BASE:
+            return 1
+        e = minexp[v - nfa.RULE_BASE]
+        return INF if e is None else max(len(e), 0)
+
+    def shortest(r, src, targets):
+        """cheapest symbol path in rule r from state src to any of targets: list of symbols"""
+        dist = {src: (0, [])}
+        pq = [(0, 0, src, [])]
+        cnt = 0
+        while pq:
+            d, _, s_, path = heapq.heappop(pq)
+            if s_ in targets:
+                return path
+            if d > dist.get(s_, (INF,))[0]:
+                continue
+            for v, b in out_edges[r].get(s_, ()):
+                c = cost(v)
+                if c >= INF:
+                    continue
+                nd = d + c
+                if nd < dist.get(b, (INF,))[0]:
+                    dist[b] = (nd, path + [v])
+                    cnt += 1
+                    heapq.heappush(pq, (nd, cnt, b, path + [v]))
+        return None
+
+    def expand(symbols):
+        outp = []
+        for v in symbols:
+            if v < nfa.RULE_BASE:
+                outp.append(v)
+            else:
+                outp.extend(minexp[v - nfa.RULE_BASE])
+        return outp
+
+    changed = True
+    while changed:
+        changed = False
+        for r, m in NG.items():
+            pth = shortest(r, m.start, m.accept)
+            if pth is not None:
+                e = expand(pth)
+                if minexp[r] is None or len(e) < len(minexp[r]):
+                    minexp[r] = e
+                    changed = True
+    # contexts
+    start = lg.rule_ids["start"]
+    ctx = {start: ([], [])}
+    queue = [start]
+    while queue:
+        q = queue.pop(0)
+        m = NG[q]
+        for a, l, b in m.edges:
+            for v in l[1]:
+                if v >= nfa.RULE_BASE and (v - nfa.RULE_BASE) not in ctx:
+                    pre = shortest(q, m.start, {a})
+                    post = shortest(q, b, m.accept)
+                    if pre is None or post is None:
+                        continue
+                    ctx[v - nfa.RULE_BASE] = (ctx[q][0] + expand(pre), expand(post) + ctx[q][1])
+                    queue.append(v - nfa.RULE_BASE)
+    bad = []
+    done = 0
+    sentences = []
+    for r, m in NG.items():
+        if r not in ctx:
+            continue
+        # enumerate RHS strings (DFS, bounded length, bounded count, each edge preferred once)
+        found = []
+        stack = [(m.start, [])]
+        while stack and len(found) < per_rule:
+            s_, path = stack.pop()
+            if s_ in m.accept and path:
+                found.append(path)
+            if len(path) >= 9:
+                continue
+            for v, b in reversed(out_edges[r].get(s_, ())):
+                if cost(v) < INF:
+                    stack.append((b, path + [v]))
+        for path in found:
+            sent = ctx[r][0] + expand(path) + ctx[r][1]
+            if not sent or sent[-1] != 0 or 0 in sent[:-1] or len(sent) > 60:
+                continue
+            ok, errs = lg.real_parse_tokens(sent[:-1])
+            done += 1
+            if not ok:
+                bad.append(("sentence of rule %s variant %r rejected by the generated parser code" % (lg.rule_names[r], _symnames(lg, path)), sent))
+            sentences.append(sent)
+    rnd.shuffle(sentences)
+    ntok = len(lg.token_names)
+    skip = lg.skip_token_types()
+    r0 = lg.rule_ids["start"]
+    NA = lg.parser_A()
+    for sent in sentences[:nmut]:
+        for _ in range(2):
+            mt = list(sent)
+            pos = rnd.randrange(0, len(mt) - 1)
+            op = rnd.choice(("del", "sub", "swap"))
+            if op == "del":
+                del mt[pos]
+            elif op == "sub":
+                mt[pos] = rnd.choice([t for t in range(1, ntok + 1) if t not in skip])
+            elif pos + 2 < len(mt):
+                mt[pos], mt[pos + 1] = mt[pos + 1], mt[pos]
+            if len(mt) < 2 or len(mt) > 40:
+                continue
+            enc = cfg.concrete_derives(NA, r0, mt)
+            ok, errs = lg.real_parse_tokens(mt[:-1])
+            done += 1
+            if ok != enc:
+                bad.append(("generated parser code %s a token sequence that the shipped automaton %s" % ("accepts" if ok else "rejects", "rejects" if ok else "accepts"), mt))
+    rep.validated += done
+    rep.extra["generated_parser_code_runs"] = done
+    rep.obligation("O2iv generated parser code (blackbirdParser.py methods) agrees with the grammar on %d RHS-variant sentences and mutants (concrete)" % done,
+                   "holds" if not bad else "violated")
+    for what, sent in bad[:3]:
+        rep.violation("O2iv:%s" % what.split(" ")[0], "%s: %r" % (what, _symnames(lg, sent)),
+                      _replay_src("parse", {"tag": "python", "root": "start", "w": sent}), "o2iv_%d" % len(rep.violations))
+
+
 def validate_corpus(rep, lg):
     """the repo's own scripts through real lexer vs both concrete tokenisers, and real parser vs CFG encoding"""
     import glob
@@ -774,6 +915,7 @@ def main():
         o2_precedence(rep, lg)
         validate_corpus(rep, lg)
         validate_parser(rep, lg, b["N_start"], 40 if t == "quick" else 200, rnd)
+        validate_generated_code(rep, lg, 60 if t == "quick" else 400, rnd, 300 if t == "quick" else 3000)
         # every distinct non-python automaton gets its own language check (witness for the difference)
         for kind in ("lexer", "parser"):
             seen = []
